@@ -2,6 +2,7 @@ package rules
 
 import (
 	"go/token"
+	"go/types"
 	"sort"
 	"strings"
 
@@ -224,4 +225,78 @@ func mayBeCall(call *ssa.Call, idx int, depth int, mayBe func(ssa.Value, *ssa.Ba
 		}
 	}
 	return false
+}
+
+// c14ListOrder: the listing a handler returns is the store's list in the store's order. Between
+// Store.GetMessages and the response the slice of messages (or of the metadata built from it,
+// element by element) must not be handed to anything that reorders a slice: the stores order by
+// arrival, which no field of a message reproduces (Date is taken before the store lock).
+func (c *Ctx) c14ListOrder(handlers []*ssa.Function) {
+	r, p := c.R, c.P
+	r.Rule("C14/LIST/store-order", "on the listing path (handlers that reach Store.GetMessages through the Manager, and the Manager methods in between) no slice of messages or metadata is passed to a sorting, shuffling or reversing function")
+	getMsgs := p.MethodObj("pkg/storage", "Store", "GetMessages")
+	if getMsgs == nil {
+		return
+	}
+	var fns []*ssa.Function
+	seen := map[*ssa.Function]bool{}
+	for _, h := range handlers {
+		reach := p.ReachModule(h)
+		reachesList := false
+		for g := range reach {
+			eng.EachInstr(g, func(in ssa.Instruction) {
+				if call, ok := in.(*ssa.Call); ok && eng.IsCallTo(call.Common(), getMsgs) {
+					reachesList = true
+				}
+			})
+		}
+		if !reachesList {
+			continue
+		}
+		for g := range reach {
+			pk := eng.FuncPkgPath(g)
+			if seen[g] || !(strings.HasSuffix(pk, "/pkg/rest") || strings.HasSuffix(pk, "/pkg/webui") || strings.HasSuffix(pk, "/pkg/message")) {
+				continue
+			}
+			seen[g] = true
+			fns = append(fns, g)
+		}
+	}
+	sortFuncs(fns)
+	r.Floor("C14/LIST/store-order", "functions on the listing path", len(fns), 1)
+	var probs []string
+	where := ""
+	for _, fn := range fns {
+		fn := fn
+		eng.EachInstr(fn, func(in ssa.Instruction) {
+			call, ok := in.(*ssa.Call)
+			if !ok {
+				return
+			}
+			name := eng.CalleeName(call.Common())
+			reorders := strings.HasPrefix(name, "sort.") || strings.HasPrefix(name, "slices.Sort") || name == "slices.Reverse" || strings.HasPrefix(name, "math/rand.Shuffle") || strings.HasPrefix(name, "(*math/rand.Rand).Shuffle")
+			if !reorders {
+				return
+			}
+			// only slices of messages / metadata matter
+			for _, a := range call.Call.Args {
+				t := eng.Unwrap(a).Type()
+				if sl, ok := t.Underlying().(*types.Slice); ok {
+					et := sl.Elem().String()
+					if strings.Contains(et, "storage.Message") || strings.Contains(et, "MessageMetadata") || strings.Contains(et, "message.Message") || strings.Contains(et, "JSONMessageHeader") {
+						probs = append(probs, name+" on "+eng.ShortType(t)+" in "+shortFn(fn)+" at "+p.InstrPos(in))
+						if where == "" {
+							where = p.InstrPos(in)
+						}
+					}
+				}
+			}
+		})
+	}
+	sort.Strings(probs)
+	if len(probs) > 0 {
+		r.Bad("C14/LIST/store-order", "listing-path", where, "the listing is reordered on its way from the store to the response (%s): the order no longer is the store's (arrival) order, and its last entry no longer is what 'latest' returns", strings.Join(probs, "; "))
+	} else {
+		r.Ok("C14/LIST/store-order", "listing-path", "", "%d functions between the list handlers and Store.GetMessages; none reorders a slice of messages or metadata", len(fns))
+	}
 }
